@@ -57,6 +57,7 @@ def cases(seed, tier):
                     "sub": int(rng.integers(0, 2**31))})
     for i in range(1 if tier == "quick" else 4):
         out.append({"family": "big-binary", "delim": None, "n": 0, "sub": int(rng.integers(0, 2**31))})
+    out.append({"family": "huge-sparse", "delim": None, "n": 0, "sub": int(rng.integers(0, 2**31))})
     return out
 
 
@@ -98,6 +99,43 @@ def run_big_binary(case, rng, path):
             os.unlink(f)
         except OSError:
             pass
+
+
+def run_huge_sparse(case, rng, path):
+    """a binary table of more than 2^32 one-byte rows (a sparse file: nothing but a few marked rows is ever written):
+    row lists whose members lie more than 2^31 and 2^32 rows apart, through the keyword and the bracket route"""
+    from esutil import recfile
+    N = 2 ** 32 + 4096
+    marks = sorted(set([3, 2 ** 31 - 1, 2 ** 31, 2 ** 31 + 3, 2 ** 32 - 1, 2 ** 32, 2 ** 32 + 6, N - 1] + [int(x) for x in rng.integers(0, N, size=4)]))
+    try:
+        with open(path, "wb") as f:
+            f.truncate(N)
+            for k, m in enumerate(marks):
+                f.seek(m)
+                f.write(bytes([11 + k]))
+    except OSError as e:
+        COL.skipped("C02.rows", "huge-sparse/file-system-refused:%s" % type(e).__name__)
+        return
+    val = {m: 11 + k for k, m in enumerate(marks)}
+    COL.sample({"family": "huge-sparse", "rows": N}, limit=1)
+    dt = np.dtype([("a", "u1")])
+    with recfile.Recfile(path, dtype=dt, nrows=N) as rf:
+        for _ in range(8):
+            sel = sorted(set([marks[int(i)] for i in rng.integers(0, len(marks), size=int(rng.integers(1, 5)))] + [int(x) for x in rng.integers(0, N, size=int(rng.integers(0, 3)))]))
+            exp = np.array([val.get(r, 0) for r in sel], dtype="u1")
+            for nm, f in (("read(rows=)", lambda: rf.read(rows=sel)), ("[rows]", lambda: rf[np.array(sel, dtype="i8")])):
+                got, e = probe.attempt(f)
+                if e is not None:
+                    COL.violation("C02.rows", "%s on a table of 2^32+4096 rows raised %s: %s" % (nm, type(e).__name__, str(e)[:120]), {"rows": sel})
+                elif got["a"].tolist() != exp.tolist():
+                    COL.violation("C02.rows", "%s of rows %r on a table of 2^32+4096 rows returns %r, the file holds %r" % (nm, sel, got["a"].tolist(), exp.tolist()),
+                                  {"rows": sel}, key="huge-sparse")
+                else:
+                    COL.ok("C02.rows", ("huge-sparse", nm, len(sel)))
+    try:
+        os.unlink(path)
+    except OSError:
+        pass
 
 
 def install():
@@ -330,6 +368,8 @@ def run_case(case):
         return run_bin_vs_text(case, rng, path)
     if fam == "big-binary":
         return run_big_binary(case, rng, path)
+    if fam == "huge-sparse":
+        return run_huge_sparse(case, rng, path)
     table = make_table(rng, delim, n)
     start = write_file(path, table, delim)
     names = list(table.dtype.names)
